@@ -9,6 +9,8 @@ import time
 
 import numpy as np
 
+from hyverif.core import present
+
 from hyverif.oracles.flowgraph import FlowGraph, DIRS, SQRT2
 
 ID = "C06"
@@ -53,7 +55,11 @@ def make_catch(codes):
     codes = np.asarray(codes, dtype=np.int64)
     nr, nc = codes.shape
     fd = g.Grid("fd", nc, nr, dtype=np.int64)
-    fd.data = codes
+    # the code array arrives in one of several memory layouts
+    lay = ["C", "fortran", "C", "negstride", "C", "rowstrided", "C", "readonly"][
+        int(codes.sum() + nr) % 8]
+    pv = present(codes, lay) if lay != "C" else None
+    fd.data = codes if pv is None else pv
     return g.Catchment("c", fd), fd
 
 
